@@ -2,6 +2,7 @@ package spine
 
 import (
 	"fmt"
+	"reflect"
 	"sync"
 
 	"github.com/enbility/ship-go/logging"
@@ -70,13 +71,43 @@ func (r *FunctionData[T]) UpdateData(remoteWrite, persist bool, newData *T, filt
 		r.data = new(T)
 	}
 
-	updater := any(r.data).(model.Updater)
+	// the update changes list items in place: work on a copy with own lists, so the stored data
+	// stays as it is if the update is not persisted or fails, and data handed out before is not affected
+	work := copyWithOwnLists(r.data)
+
+	updater := any(work).(model.Updater)
 	data, success := updater.UpdateList(remoteWrite, persist, newData, filterPartial, filterDelete)
 	if !success {
 		return nil, model.NewErrorTypeFromString("update failed, likely not allowed to write")
 	}
 
+	if persist {
+		r.data = work
+	}
+
 	return data, nil
+}
+
+// copy the data and give every list field of the copy its own backing array
+func copyWithOwnLists[T any](data *T) *T {
+	copiedData := *data
+
+	v := reflect.ValueOf(&copiedData).Elem()
+	if v.Kind() != reflect.Struct {
+		return &copiedData
+	}
+
+	for i := 0; i < v.NumField(); i++ {
+		f := v.Field(i)
+		if f.Kind() != reflect.Slice || f.IsNil() || !f.CanSet() {
+			continue
+		}
+		list := reflect.MakeSlice(f.Type(), f.Len(), f.Len())
+		reflect.Copy(list, f)
+		f.Set(list)
+	}
+
+	return &copiedData
 }
 
 func (r *FunctionData[T]) DataCopyAny() any {
